@@ -204,9 +204,23 @@ def check(case):
     # lifecycle: ONE observable object, evaluated, then its public region attribute re-assigned, evaluated again (region after region)
     roam = SWAP(regions[-1])
     roam.apply(state, batch)
+    # after an exception: the same object (region = all sites) is applied to inputs it refuses - a single 1-D configuration, a batch whose
+    # width does not match the state, samples of another rank - and the caller catches the exception; then the region is re-assigned
+    def refused_applies(k_):
+        roam.A = list(regions[-1])
+        bads = [lambda: roam.apply(state, batch.clone().reshape(1, -1, n)), lambda: roam.apply(state, torch.zeros(2, max(n - 1, 1), dtype=torch.double)),
+                lambda: roam.apply(state, torch.zeros(4, n + 1, dtype=torch.double)), lambda: roam.apply(state, batch[0].clone())]
+        for bad_ in bads[k_ % 3:3] + bads[: k_ % 3] + bads[3:]:          # the order varies; the last one (a single 1-D configuration) always raises
+            try:
+                bad_()
+            except Exception:
+                pass
+    refused_applies(0)
     idx_r = case["batch"]
     Bn_r = batch.shape[0]
-    for A in regions[:4]:
+    for k_, A in enumerate(regions[:4]):
+        if k_:
+            refused_applies(k_)
         roam.A = list(A)
         out = roam.apply(state, batch).double()
         ok = False
